@@ -16,7 +16,9 @@
 (* Parameters and scales are integers in TENTHS.                                             *)
 EXTENDS Integers, Sequences, FiniteSets, TLC
 
-CONSTANTS NBands      \* bands per simulation in the model (the refresh conditions depend on the band rank)
+CONSTANTS NBands,     \* bands per simulation in the model (the refresh conditions depend on the band rank)
+          Styles,     \* generator styles (law_set_old_style): subset of {"old", "new"}; see SimSeed.tla
+          FullNew     \* TRUE: every pair under the new style too; FALSE: (A, A) and (A, B in NewB) only
 
 Scales == {60, 10}
 (* parameters per structure; 0 = the structure has no third parameter *)
@@ -76,15 +78,22 @@ Run(r, m) ==
 (* every request reseeds at entry (SimSeed.tla; spde through law_set_random_seed before it) *)
 OutTerm(r, m) == [req |-> r, stream |-> "seed", used |-> Run(r, m).used]
 
-VARIABLES a, b, memo, step, outs
-hvars == <<a, b, memo, step, outs>>
-Init == a \in Reqs /\ b \in Reqs /\ memo = NoMemo /\ step = 0 /\ outs = <<>>
+(* the requests placed between two A under the new style when the catalogue is not crossed entirely *)
+NewB == {r \in OtherReqs : r.sim \in {"simfft", "gibbs"} /\ r.sc # 10 /\ r.par # 2 /\ r.struct \in {"SPHERICAL", "umulti"}}
+        \cup {r \in TBReqs : r.struct = "EXPONENTIAL" /\ r.par = 0 /\ r.sc = 60}
+VARIABLES a, b, memo, step, outs, style
+hvars == <<a, b, memo, step, outs, style>>
+(* every request reseeds at entry with law_set_random_seed(seed), which re-seeds the generator of   *)
+(* EITHER style: the stream term at entry is "seed" under both                                      *)
+Init == /\ a \in Reqs /\ b \in Reqs /\ memo = NoMemo /\ step = 0 /\ outs = <<>>
+        /\ style \in Styles
+        /\ (style = "new" /\ ~FullNew) => (b = a \/ b \in NewB)
 Next == /\ step < 3
         /\ LET r == IF step = 1 THEN b ELSE a IN
            /\ outs' = Append(outs, OutTerm(r, memo))
            /\ memo' = Run(r, memo).memo
         /\ step' = step + 1
-        /\ UNCHANGED <<a, b>>
+        /\ UNCHANGED <<a, b, style>>
 Spec == Init /\ [][Next]_hvars
 
 (* C13 as a history property: in the sequence A, B, A every call gives what the same request *)
